@@ -24,6 +24,7 @@ data x permittivity/permeability) and a full product on
     parameter itself (1e-3); the misfit equals the one computed from the
     direct empymod responses.
 """
+import copy
 import itertools
 import warnings
 
@@ -330,14 +331,24 @@ def relerr(a, b):
     return float((d/scale).max())
 
 
+class UserOptionsModified(Exception):
+    """The layered_opts dict handed to Simulation was changed in place."""
+
+
 def simulate(c, survey, spec=None):
     import emg3d
     model, lay = build_model(spec or c)
     with warnings.catch_warnings():
         warnings.simplefilter('ignore')
+        lo = layered_opts(c)
+        keep = copy.deepcopy(lo)
         sim = emg3d.Simulation(survey, model, layered=True, gridding='same',
-                               layered_opts=layered_opts(c), max_workers=1,
+                               layered_opts=lo, max_workers=1,
                                verb=-1, tqdm_opts=False)
+        # the caller's options object stays the caller's: estimated values
+        # (ellipse radius, ...) must not be written back into it
+        if lo != keep:
+            raise UserOptionsModified(f'{keep} -> {lo}')
     return sim, model, lay
 
 
